@@ -22,13 +22,17 @@ CONSTANTS KeySets,    \* set of key configurations: subsets of {"HS","RS","ES"} 
           XHdrs, AuthzHdrs, Schemes,
           TenantTables, TenantHdrs, SignedFor,   \* C10 tenants
           ClaimSets, HostLabels, EpHeaders,      \* C10 endpoints
-          PathEps                                \* endpoint named by the URL path ("" = HTTP route)
+          PathEps,                               \* endpoint named by the URL path ("" = HTTP route)
+          NoDiscs                                \* disable_disconnect_on_expiry settings of the port (subset of BOOLEAN)
 
-VARIABLES conf, tok, hdr, ten, tgt
-vars == <<conf, tok, hdr, ten, tgt>>
+VARIABLES conf, tok, hdr, ten, tgt,
+          now,   \* "before" / "after" the expiry of a token whose exp is "soon"
+          seen   \* the very same token was presented to this port earlier and accepted
+vars == <<conf, tok, hdr, ten, tgt, now, seen>>
 
 Init ==
-  /\ conf \in [keys : KeySets, aud : Auds, iss : Isss]
+  /\ conf \in [keys : KeySets, aud : Auds, iss : Isss, noDisc : NoDiscs]
+  /\ now = "before" /\ seen = FALSE
   /\ tok \in [alg : Algs, signer : Signers, tamper : Tampers, exp : Exps, nbf : Nbfs,
               aud : TokAuds, iss : TokIsss, kid : Kids, eps : ClaimSets]
   /\ hdr \in [x : XHdrs, authz : AuthzHdrs, scheme : Schemes]
@@ -37,8 +41,6 @@ Init ==
   \* the key-id only matters with a JWKS; tenants only on the upstream port
   /\ ("JWKS" \notin conf.keys => tok.kid = "known")
 
-Next == UNCHANGED vars
-Spec == Init /\ [][Next]_vars
 
 -----------------------------------------------------------------------------
 (* the way the code decides *)
@@ -69,8 +71,12 @@ SignatureOK(c, t) ==
   /\ KeyFor(c, t) # "none"
   /\ IF JWKS(c) THEN t.alg = "RS" ELSE t.alg \in c.keys
 
+\* time passes: the only thing that changes is the clock. disable_disconnect_on_expiry decides
+\* whether an established connection is closed at the token's expiry, never whether a request is accepted
+Expired(t) == t.exp = "past" \/ (t.exp = "soon" /\ now = "after")
+
 ClaimsOK(c, t) ==
-  /\ t.exp # "past"
+  /\ ~Expired(t)
   /\ t.nbf # "future"
   /\ (c.aud # "" => t.aud = c.aud)
   /\ (c.iss # "" => t.iss = c.iss)
@@ -78,6 +84,14 @@ ClaimsOK(c, t) ==
 VerifyOK(c, t) == MethodAllowed(c, t) /\ SignatureOK(c, t) /\ ClaimsOK(c, t)
 
 Accept == ParseOK(hdr) /\ CarriesToken(hdr) /\ VerifyOK(conf, tok)
+
+\* the expiry of a token that is about to expire passes; the same token is presented again
+Later ==
+  /\ now = "before" /\ tok.exp = "soon"
+  /\ now' = "after" /\ seen' = Accept
+  /\ UNCHANGED <<conf, tok, hdr, ten, tgt>>
+Next == Later \/ UNCHANGED vars
+Spec == Init /\ [][Next]_vars
 
 -----------------------------------------------------------------------------
 (* the way the property is stated *)
@@ -91,14 +105,16 @@ Valid ==
   /\ tok.signer = "conf" /\ tok.tamper = "none"
   /\ Family(tok.alg) \in ConfiguredFamilies(conf)
   /\ (JWKS(conf) => tok.kid # "unknown")
-  /\ tok.exp # "past" /\ tok.nbf # "future"
+  /\ ~Expired(tok) /\ tok.nbf # "future"
   /\ (conf.aud # "" => tok.aud = conf.aud)
   /\ (conf.iss # "" => tok.iss = conf.iss)
 
 AcceptIffValid == Accept <=> Valid
 NoneNeverAccepted == tok.alg = "none" => ~Accept
 UnsignedNeverAccepted == tok.signer \in {"unsigned", "confusion", "other", "empty"} => ~Accept
-ExpiredNeverAccepted == (tok.exp = "past" \/ tok.nbf = "future") => ~Accept
+\* acceptance is a function of the request and the clock, not of what was accepted before
+\* (Accept and Valid do not mention seen; the trace specification judges repeated presentations)
+ExpiredNeverAccepted == (Expired(tok) \/ tok.nbf = "future") => ~Accept
 XPikoTakesPrecedence == (hdr.x = "bad" => ~Accept) /\ (hdr.x = "good" /\ hdr.authz = "bad" /\ hdr.scheme = "Bearer" /\ VerifyOK(conf, tok) => Accept)
 
 -----------------------------------------------------------------------------
